@@ -63,9 +63,33 @@ pub fn fnv(b: &[u8]) -> u64 {
     h
 }
 
-/// installs a panic hook that stays quiet (panics are data here)
+thread_local! {
+    static LAST_PANIC_AT: std::cell::RefCell<String> = std::cell::RefCell::new(String::new());
+}
+
+/// installs a panic hook that stays quiet (panics are data here) and remembers
+/// where the panic was raised
 pub fn quiet_panics() {
-    std::panic::set_hook(Box::new(|_| {}));
+    std::panic::set_hook(Box::new(|info| {
+        let at = info
+            .location()
+            .map(|l| {
+                let f = l.file();
+                let f = f.rsplit('/').next().unwrap_or(f);
+                format!("{}:{}", f, l.line())
+            })
+            .unwrap_or_default();
+        LAST_PANIC_AT.with(|c| *c.borrow_mut() = at);
+    }));
+}
+
+/// "file.rs" of the last panic on this thread (line numbers dropped so that
+/// the class survives unrelated edits), and the full "file.rs:line"
+pub fn last_panic_at() -> (String, String) {
+    LAST_PANIC_AT.with(|c| {
+        let s = c.borrow().clone();
+        (s.split(':').next().unwrap_or("").to_string(), s)
+    })
 }
 
 /// Ok(value) or Err(panic message)
@@ -80,7 +104,8 @@ pub fn guarded<T>(f: impl FnOnce() -> T) -> Result<T, String> {
             } else {
                 "panic".to_string()
             };
-            Err(msg)
+            let (_, at) = last_panic_at();
+            Err(format!("{} @{}", msg, at))
         }
     }
 }
